@@ -221,7 +221,7 @@ Proof.
     + pose proof (Hd eq_refl) as Had.
       assert (Ecur : (if l1 && r_delta rc then [] else cur) = (if l2 && r_delta rc then [] else cur)).
       { destruct (r_delta rc) eqn:Hdl; [|now rewrite !andb_false_r].
-        rewrite (Hq eq_refl Had). destruct l1, l2; reflexivity. }
+        rewrite (Hq Hdl Had). destruct l1, l2; reflexivity. }
       rewrite Ecur. apply IH.
       intros Hdl _. destruct (l2 && r_delta rc); [reflexivity|]. now apply Hq.
   - destruct o as [i' k v| | | | |b]; try discriminate; cbn [cycles pending].
@@ -617,10 +617,10 @@ Definition refute_rc : rcfg := {| rk := RPeriodic; r_delta := true |}.
 Definition old_failing_h : list op := [Add 0%nat 0%N 5; SetErr true; Flush 0%nat; SetErr false; Add 0%nat 0%N 7; Flush 0%nat].
 Definition old_failing_h2 : list op := [Add 0%nat 0%N 5; SetErr true; Shutdown 0%nat].
 Lemma old_failing_histories_now_ok :
-  stream refute_rc 0 0 old_failing_h = [[(0%N, [5])]; [(0%N, [7])]] /\
-  stream_ok false refute_rc 0 0 old_failing_h (stream refute_rc 0 0 old_failing_h) = true /\
-  stream refute_rc 0 0 old_failing_h2 = [[(0%N, [5])]] /\
-  stream_ok false refute_rc 0 0 old_failing_h2 (stream refute_rc 0 0 old_failing_h2) = true.
+  stream refute_rc 0%nat 0%nat old_failing_h = [[(0%N, [5])]; [(0%N, [7])]] /\
+  stream_ok false refute_rc 0%nat 0%nat old_failing_h (stream refute_rc 0%nat 0%nat old_failing_h) = true /\
+  stream refute_rc 0%nat 0%nat old_failing_h2 = [[(0%N, [5])]] /\
+  stream_ok false refute_rc 0%nat 0%nat old_failing_h2 (stream refute_rc 0%nat 0%nat old_failing_h2) = true.
 Proof. vm_compute. repeat split; reflexivity. Qed.
 
 (** what the deliveries looked like before the fixes (the lossy reading with the old [attempt]):
@@ -632,8 +632,8 @@ Definition attempt_before_fix (rc : rcfg) (r : nat) (down err : bool) (o : op) :
                  then (match x with CDelivered => CDropped | y => y end, d, c) else (x, d, c)
   end.
 Lemma attempt_before_fix_dropped :
-  fst (fst (attempt_before_fix refute_rc 0 false true (Flush 0))) = CDropped /\
-  fst (fst (attempt_before_fix refute_rc 0 false true (Shutdown 0))) = CDropped /\
-  fst (fst (attempt refute_rc 0 false true true (Flush 0))) = CDelivered /\
-  fst (fst (attempt refute_rc 0 false true true (Shutdown 0))) = CDelivered.
+  fst (fst (attempt_before_fix refute_rc 0%nat false true (Flush 0%nat))) = CDropped /\
+  fst (fst (attempt_before_fix refute_rc 0%nat false true (Shutdown 0%nat))) = CDropped /\
+  fst (fst (attempt refute_rc 0%nat false true true (Flush 0%nat))) = CDelivered /\
+  fst (fst (attempt refute_rc 0%nat false true true (Shutdown 0%nat))) = CDelivered.
 Proof. repeat split; reflexivity. Qed.
